@@ -122,43 +122,99 @@ def _cli(args):
         os.unlink(path)
 
 
+def _mentions(ob, names):
+    seen = set()
+    found = [False]
+
+    def walk(t):
+        if found[0] or t.get_id() in seen:
+            return
+        seen.add(t.get_id())
+        if z3.is_quantifier(t):
+            walk(t.body())
+            return
+        if z3.is_app(t):
+            if t.decl().name() in names:
+                found[0] = True
+                return
+            for ch in t.children():
+                walk(ch)
+    for a in ob.assumptions + [ob.goal]:
+        walk(a)
+    return found[0]
+
+
+def _task(args):
+    if args[0] == "z3":
+        idx, status, backend, dt, extra = _check(args[1:])
+        return idx, status, backend, dt, extra
+    idx, which, res, dt = _cli(args[1:])
+    return idx, res, which, dt, None
+
+
 def discharge(obligations, axioms, timeout_ms=20000, procs=None, covers=None, cross=False, cross_timeout_s=30):
-    """Returns list of result dicts aligned with `obligations` and cover results."""
+    """Returns list of result dicts aligned with `obligations` and cover results.
+
+    Pass 1: z3 (python API), default configuration, short budget.  Pass 2, for what is still
+    unknown: a portfolio run concurrently - z3 under 4 seeds x 3 quantifier configurations, the
+    cvc5 CLI and the z3 4.8 CLI on the SMT-LIB2 text of the same query; the first decisive answer
+    wins (an `unsat` and a `sat` for one query is reported as a disagreement, never as a verdict).
+    """
     global _OBLS, _AXIOMS, _COVERS
     _OBLS = obligations
-    _AXIOMS = axioms
+    # external-codec axioms only where the obligation mentions the tables
+    ax_names = {"E_cp1252", "D_cp1252"}
+    _AXIOMS = []
+    for ob in obligations:
+        if axioms and _mentions(ob, ax_names) and not getattr(ob, "_ax", False):
+            ob.assumptions = list(axioms) + ob.assumptions
+            ob._ax = True
     _COVERS = covers or []
     procs = procs or min(16, os.cpu_count() or 1)
     results = [None] * len(obligations)
     cover_res = [None] * len(_COVERS)
     cross_res = {}
     ctx = mp.get_context("fork")
+    first_ms = min(timeout_ms, 8000)
     with ctx.Pool(procs) as pool:
         for idx, status, backend, dt, extra in pool.imap_unordered(
-                _check, [(i, timeout_ms, 0) for i in range(len(obligations))], chunksize=1):
+                _check, [(i, first_ms, 0) for i in range(len(obligations))], chunksize=1):
             results[idx] = {"status": status, "backend": backend, "time": dt, "extra": extra}
-        # portfolio retry for unknowns: seeds x quantifier configurations, all in parallel; E-matching
-        # proofs of nested-quantifier VCs vary a lot with the seed, so the first answer wins
-        unk = [i for i, r in enumerate(results) if r["status"] == "unknown"]
-        if unk:
-            tasks = [(i, timeout_ms * 2, seed, cfg) for i in unk for seed in (1, 2, 3, 4)
-                     for cfg in ("default", "nombqi", "nombqi-noauto")]
-            for idx, status, backend, dt, extra in pool.imap_unordered(_check, tasks, chunksize=1):
-                if status != "unknown" and results[idx]["status"] == "unknown":
-                    results[idx] = {"status": status, "backend": backend, "time": results[idx]["time"] + dt,
-                                    "extra": extra}
-        unk = [i for i, r in enumerate(results) if r["status"] == "unknown"]
-        todo = []
-        if cross:
-            todo = [(i, w, cross_timeout_s) for i in range(len(obligations)) for w in ("cvc5", "z3-4.8")
-                    if results[i]["backend"] != "simplify"]
-        elif unk:
-            todo = [(i, w, cross_timeout_s) for i in unk for w in ("z3-4.8", "cvc5")]
-        for idx, which, res, dt in pool.imap_unordered(_cli, todo, chunksize=1):
-            cross_res.setdefault(idx, {})[which] = (res, dt)
         if _COVERS:
             for idx, r in pool.imap_unordered(_cover, [(i, 5000) for i in range(len(_COVERS))], chunksize=4):
                 cover_res[idx] = r
+    unk = [i for i, r in enumerate(results) if r["status"] == "unknown"]
+    if unk:
+        tasks = []
+        for i in unk:
+            tasks.append(("cli", i, "cvc5", max(cross_timeout_s, timeout_ms // 1000)))
+            tasks.append(("cli", i, "z3-4.8", max(cross_timeout_s, timeout_ms // 1000)))
+        for seed in (1, 2, 3, 4):
+            for cfg in ("default", "nombqi", "nombqi-noauto"):
+                for i in unk:
+                    tasks.append(("z3", i, timeout_ms, seed, cfg))
+        open_ = set(unk)
+        pool = ctx.Pool(procs)
+        try:
+            for idx, status, backend, dt, extra in pool.imap_unordered(_task, tasks, chunksize=1):
+                if status in ("sat", "unsat"):
+                    r = results[idx]
+                    if r["status"] == "unknown":
+                        results[idx] = {"status": status, "backend": backend, "time": r["time"] + dt, "extra": extra}
+                        open_.discard(idx)
+                    elif r["status"] != status and r["status"] in ("sat", "unsat"):
+                        r["status"] = "disagree"
+                if not open_:
+                    break
+        finally:
+            pool.terminate()
+            pool.join()
+    if cross:
+        todo = [("cli", i, w, cross_timeout_s) for i in range(len(obligations)) for w in ("cvc5", "z3-4.8")
+                if results[i]["backend"] != "simplify"]
+        with ctx.Pool(procs) as pool:
+            for idx, status, which, dt, _ in pool.imap_unordered(_task, todo, chunksize=1):
+                cross_res.setdefault(idx, {})[which] = (status, dt)
     for idx, d in cross_res.items():
         r = results[idx]
         r["cross"] = {k: v[0] for k, v in d.items()}
@@ -166,11 +222,4 @@ def discharge(obligations, axioms, timeout_ms=20000, procs=None, covers=None, cr
         verdicts = set(v[0] for v in d.values()) | {r["status"]}
         if "sat" in verdicts and "unsat" in verdicts:
             r["status"] = "disagree"
-        elif r["status"] == "unknown":
-            if "unsat" in verdicts:
-                r["status"] = "unsat"
-                r["backend"] = "+".join(k for k, v in d.items() if v[0] == "unsat")
-            elif "sat" in verdicts:
-                r["status"] = "sat"
-                r["backend"] = "+".join(k for k, v in d.items() if v[0] == "sat")
     return results, cover_res
